@@ -25,6 +25,7 @@ from .stacked_scopes import (
 )
 from .value import (
     NO_RETURN_VALUE,
+    AnyValue,
     BoundsMap,
     CanAssign,
     CanAssignContext,
@@ -619,6 +620,9 @@ class EvaluateVisitor(ast.NodeVisitor):
     errors: list[EvaluateError] = field(default_factory=list)
     active_conditions: list[Condition] = field(default_factory=list)
     validation_mode: bool = False
+    # Set by every statement visit: how the variables are narrowed for the
+    # code that follows the statement, or None if the statement always returns.
+    fallthrough: Optional[VarMap] = field(default_factory=dict, init=False)
 
     def run(self) -> Value:
         ret = self.visit(self.evaluator.node)
@@ -654,25 +658,50 @@ class EvaluateVisitor(ast.NodeVisitor):
 
     def visit_block(self, statements: Sequence[ast.stmt]) -> EvalReturn:
         possible_returns = []
-        for stmt in statements:
-            result = self.visit(stmt)
-            if result is None:
-                continue
-            if isinstance(result, Value):
-                return CombinedReturn.make(*possible_returns, result)
-            else:
-                if all(res is not None for res in result.children):
-                    return CombinedReturn.make(*possible_returns, *result.children)
-                else:
-                    possible_returns += [
-                        res for res in result.children if res is not None
-                    ]
+        narrowed_varmap: dict[str, Value] = {}
+        with contextlib.ExitStack() as stack:
+            for stmt in statements:
+                self.fallthrough = {}
+                result = self.visit(stmt)
+                fallthrough = self.fallthrough
+                if isinstance(result, Value):
+                    self.fallthrough = None
+                    return CombinedReturn.make(*possible_returns, result)
+                elif result is not None:
+                    if all(res is not None for res in result.children):
+                        self.fallthrough = None
+                        return CombinedReturn.make(*possible_returns, *result.children)
+                    else:
+                        possible_returns += [
+                            res for res in result.children if res is not None
+                        ]
+                if fallthrough and result is not None:
+                    # Some union members returned in this statement: only the
+                    # others reach the following ones. We only ever remove
+                    # members here. A variable with an Any member is left
+                    # alone: a condition may have converted that member to the
+                    # tested type, so we cannot tell which members returned.
+                    fallthrough = {
+                        name: value
+                        for name, value in fallthrough.items()
+                        if name in self.ctx.variables
+                        and not any(
+                            isinstance(member, AnyValue)
+                            for member in flatten_values(self.ctx.variables[name])
+                        )
+                        and set(flatten_values(value))
+                        <= set(flatten_values(self.ctx.variables[name]))
+                    }
+                    narrowed_varmap.update(fallthrough)
+                    stack.enter_context(self.ctx.narrow_variables(fallthrough))
+        self.fallthrough = narrowed_varmap
         return CombinedReturn.make(*possible_returns, None)
 
     def visit_Pass(self, node: ast.Pass) -> EvalReturn:
         return None
 
     def visit_Return(self, node: ast.Return) -> EvalReturn:
+        self.fallthrough = None
         if node.value is None:
             self.add_invalid("return statement must have a value", node)
             return KnownValue(None)
@@ -747,20 +776,32 @@ class EvaluateVisitor(ast.NodeVisitor):
         if self.validation_mode:
             self.visit_block(node.body)
             self.visit_block(node.orelse)
+            self.fallthrough = {}
             return None
+        left_fallthrough = right_fallthrough = None
         if condition.left_varmap is not None:
             with (
                 self.ctx.narrow_variables(condition.left_varmap),
                 self.add_active_condition(condition.condition),
             ):
                 left_result = self.visit_block(node.body)
+            if self.fallthrough is not None:
+                left_fallthrough = {**condition.left_varmap, **self.fallthrough}
         else:
             left_result = None
         if condition.right_varmap is not None:
             with self.ctx.narrow_variables(condition.right_varmap):
                 right_result = self.visit_block(node.orelse)
+            if self.fallthrough is not None:
+                right_fallthrough = {**condition.right_varmap, **self.fallthrough}
         else:
             right_result = None
+        if left_fallthrough is not None and right_fallthrough is not None:
+            self.fallthrough = unite_varmaps([left_fallthrough, right_fallthrough])
+        elif left_fallthrough is not None:
+            self.fallthrough = left_fallthrough
+        else:
+            self.fallthrough = right_fallthrough
         if condition.left_varmap is not None:
             if condition.right_varmap is not None:
                 return CombinedReturn.make(left_result, right_result)
